@@ -1413,6 +1413,11 @@ class AInterp(Interp):
             v = a.vec if isinstance(a, FHV) else a
             if isinstance(v, Vec) and v.base in CONST_VECS:
                 return Lin.c(len(CONST_VECS[v.base]))
+        if ext == "builtins.hasattr" and len(args) == 2 and isinstance(args[0], SelfV) and isinstance(args[1], K):
+            # attributes created by an earlier method call on this object (fit) exist at run time
+            heap = getattr(st, "heap", {})
+            if (id(args[0]), args[1].v) in heap or args[1].v in args[0].attrs:
+                return K(True)
         if ext == "builtins.enumerate" and len(args) == 1:
             return EnumV(args[0])
         return super().builtin_call(e, fname, args, kwargs, st, frame)
